@@ -26,6 +26,7 @@ fn main() {
 			"C04" => checks::c04::replay_case(v["replay"]["case"].as_str().unwrap_or("")),
 			"C06" => checks::c06::replay_case(v["replay"]["case"].as_str().unwrap_or("")),
 			"C08" => checks::c08::replay_case(v["replay"]["case"].as_str().unwrap_or("")),
+			"C11" if v["replay"]["funding_reorg"].is_string() => checks::c11::replay_funding_reorg(v["replay"]["funding_reorg"].as_str().unwrap_or("")),
 			"C11" => checks::c11::replay_script(v["replay"]["script"].as_str().unwrap_or("")),
 			"C12" => checks::c12::replay(&v["replay"], &name, &actions),
 			_ => cli::die("replay: unknown property"),
